@@ -157,12 +157,12 @@ def corpus_fol(pid):
 
 # ------------------------------------------------------------------ first-order programs
 
-def gen_fol_program(seed, k, quant=False, crossed_p=0.0, n_ops=(2, 10), mid_facts=0.0, down_first=False, **opts):
+def gen_fol_program(seed, k, quant=False, crossed_p=0.0, n_ops=(2, 10), mid_facts=0.0, down_first=False, restrict_p=0.0, **opts):
     import fol
     rng = random.Random(sub_seed(seed, "fol", k, quant))
     kb = fol.gen_fol_kb(rng, quant=quant, **opts)
     facts, nc = fol.gen_facts(rng, kb, crossed_p=crossed_p)
-    ops = fol.gen_fol_ops(rng, kb, n_ops=n_ops, mid_facts=mid_facts, n_consts=nc)
+    ops = fol.gen_fol_ops(rng, kb, n_ops=n_ops, mid_facts=mid_facts, n_consts=nc, restrict_p=restrict_p)
     if down_first:
         # the first inference call is a DOWNWARD one from a formula that is given (axiom / closed / asserted), onto an operand
         # predicate that has no rows yet: the join then is not a full product, several groundings project onto one new row
